@@ -1,6 +1,7 @@
 package main
 
 import (
+	"unicode"
 	"encoding/json"
 	"fmt"
 	"strings"
@@ -139,7 +140,7 @@ func isIdent(s string) bool {
 		return false
 	}
 	for i, r := range s {
-		if !(r == '_' || r == '$' || (r >= 'a' && r <= 'z') || (r >= 'A' && r <= 'Z') || (i > 0 && r >= '0' && r <= '9')) {
+		if !(r == '_' || r == '$' || unicode.IsLetter(r) || (i > 0 && r >= '0' && r <= '9')) { // ES5 IdentifierName: Unicode letters
 			return false
 		}
 	}
